@@ -38,6 +38,15 @@ def canon (i : Instr) (pre s : State) : State :=
       | v :: l => { s with ivec := sortI v :: l }
       | [] => s
     else s
+  -- the sign of a NaN is not observable through the protocol (`Float32.toBits` canonicalises NaN), but
+  -- `f32::total_cmp` puts negative NaNs first and positive ones last: after a float SORT the NaNs are
+  -- moved to the end on both sides before comparing
+  let s := match i with
+    | .vec .f .sortAsc | .vec .f .sortDesc =>
+      (match s.fvec with
+       | v :: l => { s with fvec := (v.filter (fun x => !F32.isNaN x) ++ v.filter F32.isNaN) :: l }
+       | [] => s)
+    | _ => s
   if wildName i && s.name.length == pre.name.length + 1 then { s with name := "?" :: s.name.tail } else s
 
 /-- instructions whose outcome depends on the random oracle: validated relationally -/
@@ -180,8 +189,11 @@ def c09Eval : PropEval := fun i pre post =>
      | .f, .sortAsc | .f, .sortDesc =>
        (match pre.fvec, post.fvec with
         | v :: _, w :: _ =>
-          let ordered := if o == .sortAsc then C09.isSortedBy (fun a b => decide (totalKey a ≤ totalKey b)) w
-                         else C09.isSortedBy (fun a b => decide (totalKey b ≤ totalKey a)) w
+          -- NaNs (whose sign is not observable here) may form a block at either end; the rest is ordered
+          let core := (w.dropWhile F32.isNaN).reverse.dropWhile F32.isNaN |>.reverse
+          let ordered := !core.any F32.isNaN &&
+                         (if o == .sortAsc then C09.isSortedBy (fun a b => decide (totalKey a ≤ totalKey b)) core
+                          else C09.isSortedBy (fun a b => decide (totalKey b ≤ totalKey a)) core)
           if ordered && C09.sameMultiset (v.map totalKey) (w.map totalKey) then none
           else some "SORT must yield an ordered permutation of the vector"
         | _, _ => none)
